@@ -19,3 +19,7 @@ def define(M):
     M("C10", "glyph_width_from_default_in_sparse_aware_path", "Lib/ufo2ft/outlineCompiler.py",
       "            width = otRound(glyph.width)\n            if width < 0:",
       "            width = otRound(glyph.width) if self.compilingVFDefaultSource else otRound(glyph.width) + 2\n            if width < 0:", cases=300)
+    # the repaired defect (655c8e0) put back
+    M("C10", "interpolated_layer_truthiness", "Lib/ufo2ft/instantiator.py",
+      "            if glyph is None:\n                glyph = self._interpolate(glyph_name)",
+      "            if not glyph:\n                glyph = self._interpolate(glyph_name)")
